@@ -21,6 +21,7 @@ var currentNote atomic.Value // what the worker is doing right now (printed by t
 func note(format string, a ...any) {
 	s := fmt.Sprintf(format, a...)
 	currentNote.Store(s)
+	stepBegin()
 	fmt.Fprintln(os.Stderr, "NOTE", s)
 }
 
